@@ -329,6 +329,8 @@ class C12(core.Property):
                   "MP.stable_leader_commits_any_ack_order / MP.stable_leader_resolves_future: every action of the sequence is an Accepted delivery or a handler of a node other than the leader "
                   "(StableAct); the slot lies inside the leader's log, an acknowledgement for it is in the sequence and the counted acknowledgements reach q2 by the end; for the future: the leader has applied "
                   "what it committed (Caught) and the future is registered for the slot",
+                  "Px.paxos_judge_silent_on_model / agreement_on_model / futures_on_model: n < q1 + q2 and 0 < q2 (validity_on_model: 0 < q2; stability_on_model: none); the transcript is Px.instOf: the report of an "
+                  "arbitrary node (any function of the action) after every step, of every node < n at the end, all resolved futures, all values handed to propose()",
                   "Px.single_proposer_decides: p < n, b % n = p, n < q1 + q2, 2 <= q1, 1 <= q2; Q1, Q2 duplicate-free lists of acceptors < n without p, |Q1| + 1 >= q1, |Q2| + 1 >= q2; every action of the two "
                   "schedule segments is a delivery of ballot-b traffic or of a Decided message not addressed to p (DelivB, NotTo); Before(recvPrepare b d, recvPromise b d) in the first segment for d in Q1, "
                   "Before(recvAccept b d, recvAccepted b d) in the second for d in Q2",
@@ -1755,6 +1757,11 @@ THEOREMS = [
     "HappyModel.C12.Px.stepCur_eq_step",
     "HappyModel.C12.Px.single_proposer_example",
     "HappyModel.C12.Px.single_proposer_lost_link_undecided",
+    "HappyModel.C12.Px.paxos_judge_silent_on_model",
+    "HappyModel.C12.Px.stability_on_model",
+    "HappyModel.C12.Px.agreement_on_model",
+    "HappyModel.C12.Px.validity_on_model",
+    "HappyModel.C12.Px.futures_on_model",
     "HappyModel.C12.Px.single_proposer_decides",
     "HappyModel.C12.Px.init_G",
     "HappyModel.C12.Px.promise_step",
